@@ -15,6 +15,7 @@ import time
 import traceback
 
 HERE = os.path.dirname(os.path.abspath(__file__))
+OUT = os.environ.get('VERIF_OUT', 'out')      # parallel seeded-mutant runs use one output directory each
 sys.path.insert(0, HERE)
 REPO_SRC = os.environ.get('VERIF_REPO_SRC') or os.path.join(os.environ.get('VERIF_REPO_ROOT', '/repo'), 'src/zope/testrunner')
 
@@ -138,7 +139,7 @@ def start_native(prop, tier, seed):
     budget = registry.NATIVE_BUDGET[tier]
     cmd = ['/venv/bin/python', os.path.join(HERE, 'native', 'run.py'), prop, '--budget', str(budget),
            '--seed', str(seed), '--tier', tier]
-    out = open(os.path.join(HERE, 'out', 'tmp', 'native_%s.out' % prop), 'w+')
+    out = open(os.path.join(HERE, OUT, 'tmp', 'native_%s.out' % prop), 'w+')
     p = subprocess.Popen(cmd, stdout=out, stderr=subprocess.STDOUT, text=True, cwd=HERE, start_new_session=True)
     return p, out, budget
 
@@ -181,9 +182,9 @@ def main():
     tier = a.tier if a.tier in ('quick', 'thorough') else 'quick'
     seed = int(os.environ.get('VERIF_SEED', '0') or 0)
     t0 = time.time()
-    os.makedirs(os.path.join(HERE, 'out', 'replay'), exist_ok=True)
-    os.makedirs(os.path.join(HERE, 'out', 'tmp'), exist_ok=True)
-    os.environ['PYVC_TMP'] = os.path.join(HERE, 'out', 'tmp')
+    os.makedirs(os.path.join(HERE, OUT, 'replay'), exist_ok=True)
+    os.makedirs(os.path.join(HERE, OUT, 'tmp'), exist_ok=True)
+    os.environ['PYVC_TMP'] = os.path.join(HERE, OUT, 'tmp')
     os.makedirs(os.path.join(HERE, 'evidence'), exist_ok=True)
 
     native_job = None if a.no_native else start_native(prop, tier, seed)
@@ -253,7 +254,7 @@ def main():
     n = 0
     for oid, g in violations:
         n += 1
-        path = os.path.join('out', 'replay', '%s_%d.json' % (prop, n))
+        path = os.path.join(OUT, 'replay', '%s_%d.json' % (prop, n))
         repro = native_new[0] if native_new else None
         rec = {'property': prop, 'obligation': oid, 'function': g['function'], 'clause': g['text'],
                'failed_instances': g['bad'][:5], 'passed_on_baseline': oid in baseline,
@@ -267,7 +268,7 @@ def main():
     if not violations:
         for f in native_new:
             n += 1
-            path = os.path.join('out', 'replay', '%s_%d.json' % (prop, n))
+            path = os.path.join(OUT, 'replay', '%s_%d.json' % (prop, n))
             rec = {'property': prop, 'obligation': None, 'source': 'bounded oracle on the real code (native/%s.py)' % prop.lower(),
                    'case': f['case'], 'native_finding': f,
                    'replay': '/venv/bin/python native/run.py %s --replay %s' % (prop, path)}
